@@ -76,6 +76,7 @@ func freshPull(x *harness.Run, opts *rewards.Options, h int64, pool *big.Int) (a
 }
 
 type runOut struct {
+	floors []int64 // per block: the whole-OLT withdrawable amount the withdraw operations were built from
 	hashes [][]byte
 	m      *model
 	key    string
@@ -86,7 +87,9 @@ type runOut struct {
 
 // run executes one history (events evs of configuration s, then ext default blocks). restarts=false
 // ignores the restart flags (the uninterrupted twin); oracle=false only collects app hashes.
-func run(s *wspec, evs []event, ext int, restarts, oracle bool, log *os.File) runOut {
+// floors (twin only): the withdrawable amounts of the main execution, so that both executions carry
+// byte-identical transactions.
+func run(s *wspec, evs []event, ext int, restarts, oracle bool, floors []int64, log *os.File) runOut {
 	var out runOut
 	w := s.build()
 	x, err := harness.StartRunAs(w, harness.NaturalIdentityOf(w.Vals[0]))
@@ -133,6 +136,10 @@ func run(s *wspec, evs []event, ext int, restarts, oracle bool, log *os.File) ru
 		// matured at this height (the chunk maturing in this very block's BeginBlock included) minus
 		// what was withdrawn; "all" is the largest whole-OLT amount within it, "over" one OLT more
 		floorM := new(big.Int).Div(new(big.Int).Sub(m.maturedAt(val0, h), get(m.withdrawn, val0)), e18).Int64()
+		if floors != nil {
+			floorM = floors[i]
+		}
+		out.floors = append(out.floors, floorM)
 		spec := harness.BlockSpec{Dt: e.Dt, Absent: e.Absent}
 		var wAmt *big.Int
 		if e.Op != "" {
@@ -308,7 +315,7 @@ func execHist(h []int, tier string, log *os.File) explore.BFSOut {
 	for _, e := range evs {
 		hasRestart = hasRestart || e.Restart
 	}
-	main := run(s, evs, ext, true, true, log)
+	main := run(s, evs, ext, true, true, nil, log)
 	if main.err != "" && !main.halted {
 		return explore.BFSOut{Err: main.err}
 	}
@@ -320,7 +327,7 @@ func execHist(h []int, tier string, log *os.File) explore.BFSOut {
 		return out
 	}
 	if hasRestart && !main.dead {
-		twin := run(s, evs, ext, false, false, nil)
+		twin := run(s, evs, ext, false, false, main.floors, nil)
 		if twin.err != "" {
 			return explore.BFSOut{Err: "twin: " + twin.err}
 		}
@@ -351,7 +358,7 @@ func execHist(h []int, tier string, log *os.File) explore.BFSOut {
 				if log != nil {
 					fmt.Fprintf(log, "  restart twin: app hash of block %d differs (restarted %x, uninterrupted %x)\n", i+1, main.hashes[i], twin.hashes[i])
 				}
-				m.violate("restart-divergence", fmt.Sprintf("restart=%s|diverges=%s", pos, dist),
+				m.violate("restart-divergence", fmt.Sprintf("op=restart|restart=%s|diverges=%s|%s", pos, dist, m.blockFacts[int64(i+1)]),
 					fmt.Sprintf("node restarted before block %d: app hash of block %d is %x, the uninterrupted node's is %x (first difference)", last+1, i+1, main.hashes[i], twin.hashes[i]))
 				break
 			}
